@@ -4,8 +4,11 @@ History layer (engine E): breadth-first search over histories of {answer any hel
 server error), lose any pool connection, route another request to a pool with a dead connection, run the next
 executor task, let the next scheduled task fall due, fire the client timer} on a real Session with 2-3 pools
 (protocol v4 HostConnection, protocol v2 HostConnectionPool), the switch issued by `USE ks2` or `set_keyspace`.
+Histories with a second switch (the retry of the same switch, a switch to another keyspace, back to the first one)
+issued after the first one completed, and histories in which a client-side timeout marks a connection for
+replacement while it stays open (orphaned-stream threshold), are explored in configurations of their own.
 Schedule layer (engine S): the reactor thread delivering the USE result and the server's answers against the
-executor thread replacing a lost connection / creating a pool, every schedule within the preemption bound.
+executor thread replacing a lost or marked connection / creating a pool, every schedule within the preemption bound.
 The harnesses, the oracle and the canonical state are in vt/c20lib.py.
 """
 from vt import explore, sched
@@ -26,22 +29,38 @@ META = {
             'switch sends; the explorer answers each one in any order with success / InvalidRequest / server error, may lose any '
             'pool connection at any point (idle, with the USE pending, before the switch arrives), route another request to a '
             'pool whose connection is dead (so the pool shuts down or schedules a replacement), run the next executor task, let '
-            'the next scheduled (reconnection) task fall due, fire the client timer.  Quick: all histories to depth 7 (convicting, '
-            '3 hosts) and the complete reachable state space of the other configurations; thorough: deeper and with two losses.  '
+            'the next scheduled (reconnection) task fall due, fire the client timer.  Two-switch configurations (2 hosts, v4 and '
+            'v2 pools): once a switch has completed and the server holds nothing the application may issue its next switch - '
+            'the same target again (the retry of a switch that reported an error), another keyspace (ks1 -> ks2 -> ks3 via '
+            'set_keyspace) or back to the first one (ks1 -> ks2 -> ks1) - with the same alphabet, so every combination of '
+            'per-pool outcomes of the first switch is followed by every combination for the second.  Orphan configuration '
+            '(v4, connection class with orphaned_threshold = 1): at any point one request of the application to a host may '
+            'time out on the client, which marks that pool connection for replacement while it stays open; a later request '
+            'to the pool schedules HostConnection._replace, which then runs (as a task) before, between or after the USE '
+            'being sent and answered on the old connection.  Quick: all histories to depth 7 (convicting, 3 hosts) and the '
+            'complete reachable state space of the other configurations; thorough: deeper, with two losses, two switches '
+            'also on 3 hosts / convicting / two v2 connections per host.  '
             'Schedule layer: reactor thread (delivers the USE result at a scheduler-chosen moment, then every server answer) '
-            'against the executor thread running HostConnection._replace / HostConnectionPool._retrying_replace or '
+            'against the executor thread running HostConnection._replace (pool without connection; pool whose open connection '
+            'is marked for replacement) / HostConnectionPool._retrying_replace or '
             'Session.add_or_renew_pool, scheduling points at every virtual primitive and every source line of the switch, '
-            'replacement and pool-creation functions, preemption bound 1 (thorough: bound 2 for the v4 replacement scenario).  Oracle, in every state and again after the default '
+            'replacement and pool-creation functions, preemption bound 1 (thorough: bound 2 for the v4 replacement scenario).  '
+            'Oracle, for the latest switch, in every state and again after the default '
             'continuation (every held USE answered successfully, every task run, every scheduled task fired, no client timer): '
-            '(1) the switch has completed; (2) if it reports success and no USE was failed, every probe request sent afterwards to '
-            'every pool is carried by a connection on which the *server* has the new keyspace selected; (3) if the explorer '
-            'failed the USE of any pool (error answer or connection lost while pending) the switch reports an error, and the '
-            'error of the switch names every failing host.',
+            '(1) the switch has completed; (2) if it reports success and no USE of this switch was failed, every probe request '
+            'sent afterwards to every pool is carried by a connection on which the *server* has the target keyspace of this '
+            'switch selected (the server selects what each USE statement it answers successfully names); (3) if the explorer '
+            'failed the USE of any pool in this switch (error answer or connection lost while pending) the switch reports an '
+            'error, and the error of the switch names every failing host.',
     'note': 'Handlers are atomic in the history layer; intra-handler preemption is covered by the schedule layer at source-line '
             'granularity within the preemption bound.  The canonical state of the history layer is compared against no-dedup '
             'runs in the thorough tier.  A client-side request timeout is not counted as the switch completing.  USEs issued '
             'from executor tasks (blocking ones on replacement connections / new pools) are always answered successfully.  '
-            'Two overlapping switches are not explored.  The clause "names every failing host" comes from the docstring of '
+            'Two overlapping switches are not explored (the next switch is issued only after the previous one completed and '
+            'when no USE is held).  In two-switch histories a node does not answer InvalidRequest to the USE of the keyspace '
+            'it has selected on that very connection (i.e. the keyspace is not dropped between the application\'s USE and the '
+            'pool\'s USE on the connection that carried it).  A connection marked for replacement is not lost or defuncted as '
+            'well before it has been replaced.  The clause "names every failing host" comes from the docstring of '
             'Session._set_keyspace_for_all_pools and has its own fingerprint.',
     'design_ref': 'C20',
 }
@@ -54,6 +73,7 @@ def e_configs(ctx):
     base = dict(hosts=3, proto=4, ks0=None, convict=True, entry='use', timeout=None, kinds=KINDS3, max_defunct=1)
     never = dict(base, convict=False)
     full = 30          # "to exhaustion": the reachable space of these configurations ends well before this depth
+    two = dict(never, hosts=2)
     cfgs = [
         ('v4-convict', dict(base), 7),
         ('v4-never', dict(never), full),
@@ -61,6 +81,13 @@ def e_configs(ctx):
         ('v4-never-timer', dict(never, timeout=10.0, timers=True, kinds=KINDS2), full),
         ('v2-core1', dict(never, proto=2, core=1, hosts=2), full),
         ('v2-core2', dict(never, proto=2, core=2, hosts=2, kinds=KINDS2), full),
+        # a second switch after the first one completed: retry of the same target, another target, back again
+        ('v4-2sw-same', dict(two, switches=('ks2', 'ks2')), full),
+        ('v4-2sw-other-setks', dict(two, ks0='ks1', entry='set_keyspace', switches=('ks2', 'ks3')), full),
+        ('v4-2sw-back', dict(two, ks0='ks1', switches=('ks2', 'ks1')), full),
+        ('v2-core1-2sw-same', dict(two, proto=2, core=1, switches=('ks2', 'ks2'), kinds=KINDS2), full),
+        # a connection marked for replacement (orphaned-stream threshold) while it stays open
+        ('v4-orphan', dict(two, kinds=KINDS2, max_orphan=1), full),
     ]
     if ctx.thorough:
         cfgs = [
@@ -77,6 +104,17 @@ def e_configs(ctx):
             ('v2-core1-3hosts', dict(never, proto=2, core=1, hosts=3), full),
             ('v2-core2', dict(never, proto=2, core=2, hosts=2), 11),
             ('v2-core1-convict', dict(base, proto=2, core=1, hosts=2), 10),
+            ('v4-2sw-same', dict(two, switches=('ks2', 'ks2')), full),
+            ('v4-2sw-other-setks', dict(two, ks0='ks1', entry='set_keyspace', switches=('ks2', 'ks3')), full),
+            ('v4-2sw-back', dict(two, ks0='ks1', switches=('ks2', 'ks1')), full),
+            ('v4-2sw-same-3hosts', dict(never, switches=('ks2', 'ks2'), kinds=KINDS2), full),
+            ('v4-2sw-same-convict', dict(base, hosts=2, switches=('ks2', 'ks2'), kinds=KINDS2), 12),
+            ('v2-core1-2sw-same', dict(two, proto=2, core=1, switches=('ks2', 'ks2')), full),
+            ('v2-core1-2sw-other', dict(two, proto=2, core=1, ks0='ks1', switches=('ks2', 'ks3'), kinds=KINDS2), full),
+            ('v2-core2-2sw-same', dict(two, proto=2, core=2, switches=('ks2', 'ks2'), kinds=KINDS2), full),
+            ('v4-orphan', dict(two, kinds=KINDS2, max_orphan=1), full),
+            ('v4-orphan-ks1-setks', dict(two, kinds=KINDS2, max_orphan=1, ks0='ks1', entry='set_keyspace'), full),
+            ('v4-orphan-3hosts', dict(never, kinds=KINDS2, max_orphan=1, max_defunct=0), full),
         ]
     return cfgs
 
@@ -87,6 +125,7 @@ def s_configs(ctx):
         ('replace-v4', dict(base, scenario='replace'), 1),
         ('renew-v4-ks1', dict(base, scenario='renew', ks0='ks1'), 1),
         ('replace-v2', dict(base, scenario='replace', proto=2, core=1), 1),
+        ('replace-orphaned-v4', dict(base, scenario='replace-orphaned'), 1),
     ]
     if ctx.thorough:
         cfgs = [
@@ -97,6 +136,8 @@ def s_configs(ctx):
             ('renew-v4', dict(base, scenario='renew'), 1),
             ('replace-v2-ks1', dict(base, scenario='replace', proto=2, core=1, ks0='ks1'), 1),
             ('renew-v2', dict(base, scenario='renew', proto=2, core=1), 1),
+            ('replace-orphaned-v4', dict(base, scenario='replace-orphaned'), 1),
+            ('replace-orphaned-v4-ks1', dict(base, scenario='replace-orphaned', ks0='ks1'), 1),
         ]
     return cfgs
 
@@ -135,14 +176,23 @@ def run(ctx):
     ctx.cov['rule'] = ('history layer: state = event history replayed on a fresh real Session, deduplicated on (future, session keyspace, '
                        'pools, hosts, connections incl. server-side keyspace, held requests, queued/scheduled tasks, timers, oracle memory); '
                        'transitions = executions; non-trivial = distinct state reached after the switch arrived in which a USE was failed, '
-                       'a connection was lost or some pool was not open.  Schedule layer: executions = distinct schedules within the '
-                       'preemption bound; non-trivial = a non-default scheduling choice was taken.  outcomes = (pool situations when the '
-                       'switch arrived | scenario, failure kinds injected, outcome of the switch after the default continuation)')
+                       'a connection was lost or marked for replacement, some pool was not open, or the switch is not the first one.  '
+                       'Schedule layer: executions = distinct schedules within the '
+                       'preemption bound; non-trivial = a non-default scheduling choice was taken.  outcomes = ([for a later switch: same/other '
+                       'target, outcomes of the earlier switches,] pool situations when the switch arrived | scenario, failure kinds '
+                       'injected in this switch, outcome of the switch after the default continuation)')
     ctx.assume('handlers are atomic with respect to each other in the history layer; source-line atomicity in the schedule layer (DESIGN.md 3.1)')
     ctx.assume('virtual server answers are well-formed protocol v4 / v2 frames; a USE answered successfully is selected server-side')
     ctx.assume('USEs sent from executor tasks (replacement connections, new pools) are answered successfully by the server')
     ctx.assume('a client-side request timeout is not a completion of the switch (the no-timeout configurations make this moot)')
-    ctx.assume('one keyspace switch at a time; hosts accept new connections')
+    ctx.assume('one keyspace switch at a time (the next one is issued after the previous one completed and no USE is held); '
+               'hosts accept new connections')
+    ctx.assume('two-switch histories: a node does not reject (InvalidRequest) the USE of the keyspace it has selected on that very '
+               'connection, i.e. the keyspace is not dropped between the application\'s USE and the pool\'s USE on the connection '
+               'that carried it (the driver-side record of that connection would then stay behind the server; not explored)')
+    ctx.assume('a connection marked for replacement (orphaned-stream threshold reached) is not lost / defuncted as well before '
+               'HostConnection._replace has published its successor (a request routed to it then spins in borrow_connection '
+               'until its timeout); orphaned_threshold = 1 stands for any threshold')
 
 
 def replay(ctx, data):
